@@ -93,6 +93,7 @@ func (s *fedSpec) safeName(name string) bool {
 func genFedSpec(W *core.Tape, rich bool, abstractMode int) *fedSpec {
 	s := &fedSpec{by: map[string]*fedType{}}
 	s.Abstract = abstractMode > 0 && W.Prob(0.45)
+	nested := abstractMode > 0 // lists of lists come with the same switch as the abstract types
 	s.Seed = uint64(W.Intn(1 << 16))
 	s.NSub = 2 + W.Weighted([]int{3, 3, 2})
 	nEnt := 1 + W.Weighted([]int{2, 4, 3})
@@ -134,9 +135,12 @@ func genFedSpec(W *core.Tape, rich bool, abstractMode int) *fedSpec {
 		nf := 2 + W.Weighted([]int{2, 3, 3, 2})
 		for k := 0; k < nf; k++ {
 			f := &fedField{Name: fmt.Sprintf("f%d", k), Owner: W.Intn(s.NSub), Parent: e.Name}
-			kinds := []int{5, 2, 1, 1, 1, 0, 4, 0}
+			kinds := []int{5, 2, 1, 1, 1, 0, 4, 0, 0}
 			if useValue {
 				kinds[5] = 2
+				if nested {
+					kinds[8] = 2
+				}
 			}
 			if s.Abstract {
 				kinds[7] = 2
@@ -166,6 +170,12 @@ func genFedSpec(W *core.Tape, rich bool, abstractMode int) *fedSpec {
 				case 3:
 					f.Type = gTypeRef{Name: tgt.Name, List: true, NonNull: true, ItemNonNull: true}
 				}
+			case 8: // a list of lists of value objects
+				if s.by["V0"] == nil {
+					f.Type = gTypeRef{Name: "String"}
+					break
+				}
+				f.Type = gTypeRef{Name: "V0", List: true, Nested: true}
 			case 7:
 				if !s.Abstract { // only reachable with a hand-edited / minimised tape
 					f.Type = gTypeRef{Name: "String"}
@@ -622,6 +632,29 @@ func (s *fedSpec) universeValue(typeName, id string, f *fedField) any {
 		return requiresFn(f.Name, in)
 	}
 	tgt := s.typ(f.Type.Name)
+	if f.Type.Nested && tgt != nil {
+		if h%7 == 0 {
+			return nil
+		}
+		outer := make([]any, 0, 3)
+		for i := 0; i < int(h%3)+1; i++ {
+			hi := s.h(typeName, id, f.Name, strconv.Itoa(i))
+			if hi%5 == 0 {
+				outer = append(outer, nil)
+				continue
+			}
+			inner := make([]any, 0, 3)
+			for j := 0; j < int(hi%3); j++ {
+				if s.h(typeName, id, f.Name, strconv.Itoa(i), strconv.Itoa(j))%6 == 0 {
+					inner = append(inner, nil)
+				} else {
+					inner = append(inner, &gObj{Type: tgt.Name, ID: fmt.Sprintf("%s.%s.%s#%d.%d", typeName, id, f.Name, i, j)})
+				}
+			}
+			outer = append(outer, inner)
+		}
+		return outer
+	}
 	if tgt != nil && tgt.Abstract != "" {
 		// an object of some member type, chosen by the hash
 		pick := func(hh uint64) *gObj {
